@@ -86,12 +86,12 @@ EmitCase == Emit = "all" =>
 Payloads ==
   { [id |-> "b",      raw |-> "<b>",                           str |-> "<b>"],
     [id |-> "amp",    raw |-> "a&b",                           str |-> "a&b"],
-    [id |-> "quotes", raw |-> "'q'\"",                         str |-> "'q'\\\""],
+    [id |-> "script", raw |-> "</span><script>x</script>",     str |-> "</span><script>x</script>"],
     [id |-> "plain",  raw |-> "plain",                         str |-> "plain"] }
   \cup (IF EmitE2E = "thorough" THEN
   { [id |-> "img",    raw |-> "<img src=x onerror=alert(1)>",  str |-> "<img src=x onerror=alert(1)>"],
     [id |-> "ent",    raw |-> "&lt;i&gt;",                     str |-> "&lt;i&gt;"],
-    [id |-> "script", raw |-> "</span><script>x</script>",     str |-> "</span><script>x</script>"],
+    [id |-> "quotes", raw |-> "'q'\"",                         str |-> "'q'\\\""],
     [id |-> "gt",     raw |-> "1>0",                           str |-> "1>0"] } ELSE {})
 
 T(name, stage, steps) == [name |-> name, stage |-> stage, steps |-> steps]
